@@ -2002,7 +2002,9 @@ THEOREMS = {
     "C11": ["Iauthd.Properties.C11_first_match", "Iauthd.Properties.C11_no_match", "Iauthd.Properties.C11_criteria",
             "Iauthd.Properties.C11_class_len", "Iauthd.Addr.mask_spec"],
     "C17": ["Iauthd.Properties.C17_delivery", "Iauthd.Properties.C17_rules", "Iauthd.Properties.C17_inherit_same_rules",
-            "Iauthd.Properties.C17_timeout"],
+            "Iauthd.Properties.C17_timeout", "Iauthd.Properties.C17_services", "Iauthd.Properties.C17_services_fresh",
+            "Iauthd.Properties.C17_rules_fresh", "Iauthd.Proto.servicesChanged_exact", "Iauthd.Proto.configService_effect",
+            "Iauthd.Proto.scan_inv", "Iauthd.Proto.unrefAll_mem", "Iauthd.Proto.servicesChanged_allConf"],
 }
 
 PROP_IMPORTS = {p: ["Iauthd.Properties." + p] for p in THEOREMS}
@@ -2033,7 +2035,9 @@ def lean_modules(prop):
          "Iauthd.Proto.Parse01", "Iauthd.Proto.Trace01"] if prop == "C04" else []) + (
         ["Iauthd.Proto.RefInv", "Iauthd.Proto.RefInvH", "Iauthd.Proto.Rel07", "Iauthd.Proto.Keep07", "Iauthd.Proto.Hist07", "Iauthd.Proto.Start07", "Iauthd.Proto.Link07",
          "Iauthd.Proto.Render", "Iauthd.Proto.RenderHex", "Iauthd.Proto.RenderLines", "Iauthd.Proto.RenderInv", "Iauthd.Proto.RenderStep",
-         "Iauthd.Proto.Sim01", "Iauthd.Properties.C10"] if prop == "C07" else []) + ["Iauthd.Properties." + prop]
+         "Iauthd.Proto.Sim01", "Iauthd.Properties.C10"] if prop == "C07" else []) + (
+        ["Iauthd.Proto.RefInv", "Iauthd.Proto.RefInvH", "Iauthd.Proto.Rel07", "Iauthd.Proto.Keep07", "Iauthd.Proto.Hist07", "Iauthd.Proto.Start07",
+         "Iauthd.Proto.Reload17", "Iauthd.Proto.Sim01"] if prop == "C17" else []) + ["Iauthd.Properties." + prop]
 
 
 def checker_cmd(prop):
